@@ -35,14 +35,14 @@ fn usage() -> ! {
 
 fn default_runs(prop: Prop, tier: Tier) -> u64 {
     let q = match prop {
-        Prop::C01 => 400_000,
-        Prop::C02 => 1_000_000,
-        Prop::C03 => 500_000,
-        Prop::C11 => 300_000,
-        Prop::C14 => 400_000,
-        Prop::C16 => 1_000_000,
-        Prop::C18 => 300_000,
-        Prop::C19 => 300_000,
+        Prop::C01 => 500_000,
+        Prop::C02 => 2_000_000,
+        Prop::C03 => 2_000_000,
+        Prop::C11 => 2_000_000,
+        Prop::C14 => 3_000_000,
+        Prop::C16 => 1_500_000,
+        Prop::C18 => 1_000_000,
+        Prop::C19 => 1_500_000,
     };
     match tier {
         Tier::Quick => q,
